@@ -186,7 +186,7 @@ def check_case(acc, fam, params, ndraw, seed):
             acc.violation("draw_mean", f"{txt}: sample mean {m:.6g} of {res['n']} draws, documented mean {ref.mean:.6g} (8 sigma/sqrt(N) = {8 * ref.std / math.sqrt(res['n']):.3g})", case, sig)
         ran += 1
     acc.case((fam, tuple(params)) if ran >= 3 else None, labels=["fam:" + fam, f"suboracles:{ran}"])
-    if acc.evaluations % 9 == 0:
+    if acc.evaluations % 2 == 0:
         acc.sample({"distribution": txt, "sub_oracles_run": ran, "draws": res["n"], "sample_mean": float(np.mean(res["x"])) if res["n"] else None,
                     "documented_mean": ref.mean})
 
